@@ -502,3 +502,35 @@ Section CQ.
     - exact (i_idle c I).
   Qed.
 End CQ.
+
+(* ---------- without the write lock the capacity is exceeded ---------- *)
+(* Three goroutines on a queue of capacity 1 when Add does not take the lock (add_locked = false):
+   one Add fills the queue, two more both run their eviction before either inserts, and the shared
+   queue ends up holding two messages. *)
+Section Witness.
+  Definition wprog (i : nat) : list (op nat) :=
+    match i with O => [OAdd nat 10%nat] | S O => [OAdd nat 11%nat] | S (S O) => [OAdd nat 12%nat] | _ => [] end.
+
+  Lemma guard_off (c : conf nat) : false = true -> forall j, holdsW nat false (th nat c j) = false /\ holdsR nat true (th nat c j) = false.
+  Proof. discriminate. Qed.
+
+  Theorem unlocked_exceeds_capacity :
+    exists c, reach nat false true (init nat 1%nat wprog) c /\ (length (q_items (shq nat c)) > 1)%nat.
+  Proof.
+    pose proof (r_refl nat false true (init nat 1%nat wprog)) as R.
+    match type of R with reach _ _ _ _ ?c => pose proof (r_step nat false true _ c _ R (s_call_add nat false true c 2%nat _ _ eq_refl)) as R' end; clear R; rename R' into R; cbv beta iota delta [th shq outs hist absq added] in R.
+    match type of R with reach _ _ _ _ ?c => pose proof (r_step nat false true _ c _ R (s_lock nat false true c 2%nat _ _ eq_refl (guard_off _))) as R' end; clear R; rename R' into R; cbv beta iota delta [th shq outs hist absq added] in R.
+    match type of R with reach _ _ _ _ ?c => pose proof (r_step nat false true _ c _ R (s_evict nat false true c 2%nat _ _ eq_refl)) as R' end; clear R; rename R' into R; cbv beta iota delta [th shq outs hist absq added] in R.
+    match type of R with reach _ _ _ _ ?c => pose proof (r_step nat false true _ c _ R (s_insert nat false true c 2%nat _ _ eq_refl)) as R' end; clear R; rename R' into R; cbv beta iota delta [th shq outs hist absq added] in R.
+    match type of R with reach _ _ _ _ ?c => pose proof (r_step nat false true _ c _ R (s_unlock nat false true c 2%nat _ eq_refl)) as R' end; clear R; rename R' into R; cbv beta iota delta [th shq outs hist absq added] in R.
+    match type of R with reach _ _ _ _ ?c => pose proof (r_step nat false true _ c _ R (s_call_add nat false true c 0%nat _ _ eq_refl)) as R' end; clear R; rename R' into R; cbv beta iota delta [th shq outs hist absq added] in R.
+    match type of R with reach _ _ _ _ ?c => pose proof (r_step nat false true _ c _ R (s_lock nat false true c 0%nat _ _ eq_refl (guard_off _))) as R' end; clear R; rename R' into R; cbv beta iota delta [th shq outs hist absq added] in R.
+    match type of R with reach _ _ _ _ ?c => pose proof (r_step nat false true _ c _ R (s_evict nat false true c 0%nat _ _ eq_refl)) as R' end; clear R; rename R' into R; cbv beta iota delta [th shq outs hist absq added] in R.
+    match type of R with reach _ _ _ _ ?c => pose proof (r_step nat false true _ c _ R (s_call_add nat false true c 1%nat _ _ eq_refl)) as R' end; clear R; rename R' into R; cbv beta iota delta [th shq outs hist absq added] in R.
+    match type of R with reach _ _ _ _ ?c => pose proof (r_step nat false true _ c _ R (s_lock nat false true c 1%nat _ _ eq_refl (guard_off _))) as R' end; clear R; rename R' into R; cbv beta iota delta [th shq outs hist absq added] in R.
+    match type of R with reach _ _ _ _ ?c => pose proof (r_step nat false true _ c _ R (s_evict nat false true c 1%nat _ _ eq_refl)) as R' end; clear R; rename R' into R; cbv beta iota delta [th shq outs hist absq added] in R.
+    match type of R with reach _ _ _ _ ?c => pose proof (r_step nat false true _ c _ R (s_insert nat false true c 0%nat _ _ eq_refl)) as R' end; clear R; rename R' into R; cbv beta iota delta [th shq outs hist absq added] in R.
+    match type of R with reach _ _ _ _ ?c => pose proof (r_step nat false true _ c _ R (s_insert nat false true c 1%nat _ _ eq_refl)) as R' end; clear R; rename R' into R; cbv beta iota delta [th shq outs hist absq added] in R.
+    eexists. split; [exact R|]. vm_compute. lia.
+  Qed.
+End Witness.
